@@ -100,10 +100,13 @@ type traceRule struct {
 	// value of this domain (another goroutine may have stored it), and a
 	// compare-and-swap may succeed or fail; used to enumerate the transitions
 	// a function can *attempt* under concurrency.
-	trackAny []string
-	exprVal  func(fr *Frame, e ast.Expr) (Value, bool) // names the values of receives / field reads (tokens)
-	loadSyms bool                                      // in interference mode, record which value each Load returned ("load:<v>")
-	args     []Value                                   // abstract values bound to the root function's parameters
+	trackAny   []string
+	exprVal    func(fr *Frame, e ast.Expr) (Value, bool) // names the values of receives / field reads (tokens)
+	exprValSt  func(ip *Interp, fr *Frame, st *State, e ast.Expr) (Value, bool)
+	litElem    func(ip *Interp, fr *Frame, st *State, lit *ast.CompositeLit, key string, v Value) *State
+	fieldStore func(ip *Interp, fr *Frame, st *State, sel *ast.SelectorExpr, v Value) *State
+	loadSyms   bool    // in interference mode, record which value each Load returned ("load:<v>")
+	args       []Value // abstract values bound to the root function's parameters
 }
 
 type traceDom struct {
@@ -339,6 +342,9 @@ func (d *traceDom) Exit(ip *Interp, fr *Frame, st *State, ret *ast.ReturnStmt, v
 func (tr *traceRule) run(root *Func, init kv) *Interp {
 	ip := NewInterp(tr.c.P, &traceDom{r: tr})
 	ip.ExprVal = tr.exprVal
+	ip.ExprValSt = tr.exprValSt
+	ip.LitElem = tr.litElem
+	ip.FieldStore = tr.fieldStore
 	if tr.maxDepth > 0 {
 		ip.MaxDepth = tr.maxDepth
 	}
